@@ -172,8 +172,9 @@ def specs(tier):
     add(us, ("J", 60, None), ("J", 300, None))
     add(us, ("N", 59, None), ("N", 300, 3600))
     add(dict(std="FXD", stdoff=5 * 3600 + 1800, dst=None), None, None)           # fixed offset
+    add(dict(std="XST", stdoff=0, dst="XDT", dstoff=2 * 3600), M_(3, 5, 6, 3600), M_(10, 4, 3, 4 * 3600))   # two-hour saving
+    add(dict(std="AAA", stdoff=-2 * 3600, dst="BBB", dstoff=0), M_(3, 2, 0), M_(11, 1, 0, 3 * 3600))          # explicit daylight offset of exactly UTC
     if tier == "thorough":
-        add(dict(std="XST", stdoff=0, dst="XDT", dstoff=2 * 3600), M_(3, 5, 6, 3600), M_(10, 4, 3, 4 * 3600))   # two-hour saving
         add(us, M_(4, 1, 1, 0), M_(10, 5, 5, 2 * 3600 + 30 * 60))
         add(au, ("J", 280, 2 * 3600), ("J", 95, 3 * 3600))
         add(us, ("N", 100, 5 * 3600), ("N", 280, 5 * 3600))
@@ -198,8 +199,6 @@ def cells(tier):
                     continue
             for y in years:
                 for wm in (False, True):
-                    if q and wm and kind == "tzlocal" and si > 2:
-                        continue
                     cs.append(Cell(M, "h_rule", dict(kind=kind, spec=spec, year=y, wallmode=wm),
                                    name="%s[%s]@%d%s" % (kind, P.render(spec), y, "/wall" if wm else "/utc"),
                                    budget_s=120 if q else 600, per_path_s=20, max_violations=100))
